@@ -4,9 +4,10 @@ use libfuzzer_sys::fuzz_target;
 use vcore::fuzzdec;
 
 fuzz_target!(|data: &[u8]| {
+    fuzzdec::init();
     let case = fuzzdec::c15_case(data);
     if let Some(f) = fuzzdec::run_c15(&case) {
         fuzzdec::report("C15", &case, &f);
-        panic!("C15 violated: {}: {}", f.sig, f.msg);
+        fuzzdec::fail("C15", &f);
     }
 });
